@@ -7,10 +7,11 @@ Two correspondence parts:
   gate   image headers carrying 0-3 extensions (valid / corrupted / foreign ecode), make_empty on or off ->
          from_runtime_repr on every candidate content and NiftiWrapper(img, make_empty): adopted extension or
          the exception class.
-The ORACLE is a direct re-statement of the format rules of the property text (independent of the Coq model
-and of the source tables): a violation is an accepted content that breaks a rule, a rejected content that
-meets all of them, or a wrapper / loader that adopts content which the rules (or the implementation's own
-check_valid on that very content) reject.
+The ORACLE is a direct, LITERAL re-statement of the format rules of the property text (independent of the Coq
+model and of the source tables; Content/Rules.v valid_rules is the same text in Coq): a violation is an accepted
+content that breaks a rule, a rejected content that meets all of them, or a wrapper / loader that adopts content
+which the rules (or the implementation's own check_valid on that very content) reject.  Acceptances that break
+ONLY a rule check_valid does not enforce (GAP_RULES) carry the signature of the open finding N14.
 """
 import os, json, copy
 
@@ -32,7 +33,8 @@ RULE = ("check: base contents = valid extensions of every dimensionality (3-D, 4
         "(drop field / sub-dictionary, add / remove a value, duplicate a key into every other classification, slice "
         "dim, shape length, shape entry, affine shape, version), random double corruptions (thorough: exhaustive "
         "singles and capped-exhaustive doubles over 30 bases); separate malformed stream: random sub-values replaced "
-        "by wild JSON values, kept when inside the model's exact domain. gate: 0-3 extensions per header (valid, "
+        "by wild JSON values, kept when inside the model's exact domain; plus eleven contents that show the five blind "
+        "spots of check_valid (open finding N14) and corpus/C10/gap_*.json. gate: 0-3 extensions per header (valid, "
         "corrupted in every order, foreign ecode), make_empty on/off, injected as raw bytes or as runtime object. "
         "non-trivial = the content has a key in a classification of multiplicity > 1, or an error branch was taken")
 TRUSTED_BASE = [
@@ -45,23 +47,26 @@ TRUSTED_BASE = [
     "Python value semantics of Content/PyVal.v (True/False are the ints 1/0, float == by repr, len() of list/str/dict)",
 ]
 ASSUMPTIONS = [
-    "jv reading: JObj = dict in insertion order with distinct keys, JNum tok = float with repr tok (no NaN/Infinity)",
-    "C10_iff is stated on wf_domain: dcmmeta_shape (when present) is a list of non-zero ints (no bools, no floats), and every "
-    "classification entry that is present (content[base], content[base][sub] for the six classifications) is a dict. "
-    "Outside it the real code deviates from the rules as written: a float shape entry computes float multiplicities, "
-    "a str/dict 'shape' is iterated (tuple('abc') has length 3), a zero shape entry makes a multiplicity 0 so that the "
-    "class must be empty, and a classification entry that is a LIST of strings is taken for a key set by the uniqueness loop "
-    "(so {'global': {'const': [], 'slices': {}}} is accepted)",
-    "'number of values' of a key is Python len(): a string of m characters or a dict of m members in a classification of "
-    "multiplicity m > 1 is accepted by check_valid; the rules in Content/Spec.v say so explicitly (n_values)",
-    "classifications of multiplicity 1 (constants, and varying classes whose dimension has size 1) are not inspected by "
-    "check_valid: any value passes; changing a shape entry to 1 therefore never breaks a rule of that class",
+    "jv reading: JObj = dict in insertion order with distinct keys, JNum tok = float with repr tok (no NaN/Infinity); "
+    "True/False are read as the ints 1/0 wherever Python does (slice dim, version, shape entries in the model)",
+    "TWO rule sets: Content/Rules.v valid_rules = the property's rules taken literally; Content/Spec.v valid_spec = what "
+    "check_valid inspects. C10_iff is about valid_spec; C10_accepts (valid_rules -> accepted) needs no domain hypothesis; "
+    "C10_gap / C10_gap_*_refuted show that the property's literal iff FAILS on the real code in exactly five situations "
+    "(open finding N14, signature check-valid/unchecked-degenerate-or-stale): a varying classification of multiplicity 1 "
+    "is not inspected; dictionaries of classifications not valid for the shape are ignored (a key may be repeated there); "
+    "a non-positive shape entry passes; affine entries need not be numbers; a str/dict whose len() is the multiplicity "
+    "passes for a list of values. C10_iff_rules: outside these situations check_valid is exact for the literal rules",
+    "wf_domain (hypothesis of C10_iff / C10_iff_rules): dcmmeta_shape, when it is a list, has non-zero int entries (no "
+    "bools, no floats), is not a str/dict, and the entries content[base], content[base][sub] of the classifications valid "
+    "for the shape are dicts. Outside it the real code is even laxer: a float shape entry computes float multiplicities, a "
+    "str/dict 'shape' is iterated (tuple('abc') has length 3), a zero entry makes a multiplicity 0 (class must be empty), "
+    "a classification entry that is a LIST of strings is taken for a key set by the uniqueness loop. The oracle is silent "
+    "there and the generator does not go there",
     "model exactness (exception class as well as accept/reject) holds when shape entries in use are ints/bools, "
-    "dcmmeta_slice_dim is not a float and present classification entries are dicts (1465 of 1465 cases agreed on the class "
-    "when it was compared everywhere); the check compares the class for valid contents and single corruptions, and only "
-    "accept/reject for double corruptions, the malformed stream and a float slice dim (always a rejection), so that "
-    "re-ordering independent tests inside check_valid is not reported; contents outside this domain are not generated",
-    "dcmmeta_slice_dim True/False are read as 1/0, as Python does (model and rules alike)",
+    "dcmmeta_slice_dim is not a float and present classification entries are dicts; the check compares the class for valid "
+    "contents, single corruptions and the blind-spot cases, and only accept/reject for double corruptions, the malformed "
+    "stream and a float slice dim (always a rejection), so that re-ordering independent tests inside check_valid is not "
+    "reported",
     "an unknown or missing dcmmeta_version raises KeyError (not InvalidExtensionError): NiftiWrapper then propagates "
     "KeyError instead of skipping the candidate; a ragged affine raises ValueError. Both are rejections",
 ]
@@ -307,20 +312,21 @@ def gen_base(rng, nd=None, sd='rand', ver=None, t1=None, nkeys=None, dims=(1, 2,
             if m == 0:
                 n = 0
             for _ in range(n):
+                if not keys:
+                    break
                 k = keys.pop()
                 if cl[1] == 'const':
                     d[k] = rand_const(rng)
                 elif m == 1:
-                    d[k] = rng.choice([rand_scalar(rng), [rand_scalar(rng)]])
+                    d[k] = [rand_scalar(rng)]
                 else:
                     d[k] = [rand_scalar(rng) for _ in range(m)]
             bases.setdefault(cl[0], {})[cl[1]] = d
         elif rng.random() < 0.25:
-            # a stale dictionary of a class that is not valid for this shape: ignored by the check,
-            # even when it repeats keys of valid classes or holds value lists of any length
+            # a stale dictionary of a class that is not valid for this shape: value lists of any length
             d = {}
-            if rng.random() < 0.6:
-                d[rng.choice(KEY_POOL)] = [1, 2, 3]
+            if rng.random() < 0.6 and keys:
+                d[keys.pop()] = [1, 2, 3]          # a key of its own: no key may sit in two dictionaries
             bases.setdefault(cl[0], {})[cl[1]] = d
     for b in ('global', 'time', 'vector'):
         if b in bases:
@@ -361,7 +367,7 @@ def fit_value(c, cl):
     m = rule_mult(sh, sd, cl)
     if m == 0:
         return None
-    return 7 if m == 1 else list(range(m))
+    return list(range(m))
 
 
 AFFINE_KINDS = ['3x4', '4x3', '5x5', '4x4x1', 'ragged', 'empty', 'none', 'scalar', 'flat16', 'row-scalar', '4x4x2-ragged']
@@ -478,6 +484,70 @@ def op_kind(op):
     return {'drop_field': 'drop-field', 'drop_sub': 'drop-sub', 'add_value': 'add-value', 'remove_value': 'remove-value',
             'dup_key': 'dup-key', 'slice_dim': 'slice-dim', 'shape_len': 'shape-len', 'shape_entry': 'shape-entry',
             'affine': 'affine', 'version': 'version'}[k]
+
+
+# the blind spots of check_valid (open finding N14) ------------------------------------------------
+
+IDENT = [[1.0, 0.0, 0.0, 0.0], [0.0, 1.0, 0.0, 0.0], [0.0, 0.0, 1.0, 0.0], [0.0, 0.0, 0.0, 1.0]]
+
+
+def _plain(shape, sd, ver=0.5):
+    c = {'dcmmeta_affine': copy.deepcopy(IDENT), 'dcmmeta_slice_dim': sd, 'dcmmeta_shape': list(shape),
+         'dcmmeta_version': ver, 'global': {'const': {}, 'slices': {}}}
+    if ver == 0.6:
+        c['dcmmeta_reorient_transform'] = None
+    if len(shape) == 4 or (len(shape) == 5 and shape[3] != 1):
+        c['time'] = {'samples': {}, 'slices': {}}
+    if len(shape) == 5:
+        c['vector'] = {'samples': {}, 'slices': {}}
+    return c
+
+
+def gap_cases(rng):
+    """Contents that break ONLY a rule check_valid does not enforce: (kind, content)."""
+    out = []
+    # multiplicity-1 classification holding something else than a one-element list
+    c = _plain([2, 2, 1, 2], 2)
+    c['time']['slices']['k'] = [1, 2, 3]
+    out.append(('gap:degenerate', c))
+    c = _plain([2, 3, 2, 1], 0, 0.6)
+    c['time']['samples']['EchoTime'] = 2.5
+    out.append(('gap:degenerate', c))
+    c = _plain([rng.choice([2, 3]), 1, 2, rng.choice([2, 3])], 1)
+    c['time']['slices']['k'] = [rand_scalar(rng) for _ in range(rng.choice([0, 2, 4]))]
+    out.append(('gap:degenerate', c))
+    # a key repeated in a stale dictionary
+    c = _plain([2, 2, 2, 1, 2], None)
+    c['global']['const']['PatientID'] = 'anon'
+    c['time'] = {'samples': {'PatientID': [1]}, 'slices': {}}
+    out.append(('gap:stale', c))
+    c = _plain([2, 2, 2], 2, 0.6)
+    c['global']['slices']['InstanceNumber'] = [1, 2]
+    c['vector'] = {'samples': {}, 'slices': {'InstanceNumber': [1, 2, 3, 4]}}
+    out.append(('gap:stale', c))
+    # non-positive dimension
+    c = _plain([2, 2, -3, 2], None)
+    c['time']['samples']['EchoTime'] = [1.5, 2.5]
+    out.append(('gap:nonpositive', c))
+    c = _plain([2, -2, 2], 0)
+    c['global']['slices']['k'] = [1, 2]
+    out.append(('gap:nonpositive', c))
+    # affine entry that is not a number
+    c = _plain([2, 2, 2], None)
+    c['dcmmeta_affine'][0][0] = 'x'
+    out.append(('gap:affine', c))
+    c = _plain([2, 2, 2, 2], 2, 0.6)
+    c['dcmmeta_affine'][3][3] = None
+    c['time']['samples']['EchoTime'] = [1, 2]
+    out.append(('gap:affine', c))
+    # a str / dict of the right len() instead of a list
+    c = _plain([2, 2, 3, 2], 2)
+    c['time']['samples']['EchoTime'] = 'ab'
+    out.append(('gap:sized', c))
+    c = _plain([2, 2, 3, 2], 2)
+    c['time']['slices']['k'] = {'a': 1, 'b': 2, 'c': 3}
+    out.append(('gap:sized', c))
+    return out
 
 
 # malformed stream ---------------------------------------------------------------------------------
@@ -609,7 +679,7 @@ class Check:
         # tests are made: valid contents and single corruptions of a valid content (one fault).  For double
         # corruptions and the malformed stream (several faults at once) only accept/reject is compared, so
         # that re-ordering independent tests of check_valid is not reported.
-        one_fault = kind == 'valid' or kind.startswith('single:')
+        one_fault = kind == 'valid' or kind.startswith('single:') or kind.startswith('gap:')
         return {'kind': kind, 'content': c, 'ops': ops or [], 'cmp_err': dc == 'exact' and one_fault}
 
     @staticmethod
@@ -668,6 +738,9 @@ class Check:
                 except NotApplicable:
                     continue
                 cases.append(Check._mk('double', c2, [o1, o2]))
+        # the known blind spots (each run must print the KNOWN-FINDING line of N14)
+        for kind, c in gap_cases(rng):
+            cases.append(Check._mk(kind, c))
         # malformed stream
         n_wild = 1500 if thorough else 220
         tries = 0
@@ -753,20 +826,13 @@ class Check:
     def oracle(case, obs):
         if not isinstance(obs, dict) or 'r' not in obs:
             return None
-        verdict, rule = rules(case['content'])
-        if verdict is None:
-            return None
-        accepted = obs['r'] == 'ok'
-        if accepted and not verdict:
-            return 'check_valid / from_json ACCEPTED a content that breaks the rule: %s' % rule
-        if not accepted and verdict:
-            return 'check_valid / from_json REJECTED (%s) a content that meets every format rule' % obs['r']
-        return None
+        j = judge(case['content'], obs['r'] == 'ok', 'check_valid / from_json', obs['r'])
+        return j[0] if j else None
 
     @staticmethod
     def signature(case, obs, msg):
-        verdict, rule = rules(case['content'])
-        return ('accepts-invalid/%s' % rule) if 'ACCEPTED' in msg else 'rejects-valid'
+        j = judge(case['content'], obs['r'] == 'ok', 'check_valid / from_json', obs['r'])
+        return j[1] if j else 'none'
 
     @staticmethod
     def nontrivial(case, obs):
@@ -917,33 +983,41 @@ class Gate:
                                                     cbool(bool(case.get('cmp_err', True))))
 
     @staticmethod
-    def oracle(case, obs):
+    def _judge(case, obs):
         if not isinstance(obs, dict) or 'wrap' not in obs:
             return None
-        cands = [e for e in case['exts']]
-        for e, r in zip(cands, obs['rt']):
+        found = []
+        for e, r in zip(case['exts'], obs['rt']):
             if r is None:
                 continue
-            verdict, rule = rules(e['content'])
-            if verdict is None:
-                continue
-            if r == 'ok' and not verdict:
-                return 'from_runtime_repr ACCEPTED a content that breaks the rule: %s' % rule
-            if r != 'ok' and verdict:
-                return 'from_runtime_repr REJECTED (%s) a content that meets every format rule' % r
+            j = judge(e['content'], r == 'ok', 'from_runtime_repr', r)
+            if j:
+                found.append(j)
         if obs['wrap'] == 'ok':
             if obs.get('adopted_check') != 'ok':
-                return ('NiftiWrapper ACCEPTED an extension that its own check_valid rejects (%s)' % obs.get('adopted_check'))
-            verdict, rule = rules(obs.get('adopted_content'))
-            if verdict is False:
-                return 'NiftiWrapper ACCEPTED an extension whose content breaks the rule: %s' % rule
+                found.append(('NiftiWrapper ACCEPTED an extension that its own check_valid rejects (%s)'
+                              % obs.get('adopted_check'), 'gate/wrapper'))
+            j = judge(obs.get('adopted_content'), True, 'NiftiWrapper')
+            if j:
+                found.append((j[0], j[1] if j[1] == KNOWN_SIG else 'gate/wrapper'))
             if obs.get('adopted') is None and not case['make_empty']:
-                return 'NiftiWrapper ACCEPTED an image without adopting any of its extensions although make_empty is off'
-        return None
+                found.append(('NiftiWrapper ACCEPTED an image without adopting any of its extensions although '
+                              'make_empty is off', 'gate/wrapper'))
+        # a failure that is not the known finding takes precedence
+        for j in found:
+            if j[1] != KNOWN_SIG:
+                return j
+        return found[0] if found else None
+
+    @staticmethod
+    def oracle(case, obs):
+        j = Gate._judge(case, obs)
+        return j[0] if j else None
 
     @staticmethod
     def signature(case, obs, msg):
-        return 'gate/' + ('wrapper' if 'NiftiWrapper' in msg else 'runtime-repr')
+        j = Gate._judge(case, obs)
+        return j[1] if j else 'none'
 
     @staticmethod
     def nontrivial(case, obs):
